@@ -458,6 +458,15 @@ class Engine:
             return AggV("float", {0: K(int(c["fbits"])), 1: K(c["fwidth"])})
         if "zst" in c:
             return UNIT
+        if "static" in c and isinstance(c["static"], str):
+            # an immutable static: a reference to the value of its initialiser
+            sp = strip_generics(c["static"])
+            b = self.find_body(self.unit_qual(fr, sp)) or self.find_body(sp)
+            if b is not None and b.bkind == "const":
+                saved = fr.body
+                v = self.eval_static(b)
+                if v is not None:
+                    return RefV(Cell(copy.deepcopy(v), "static"))
         if "def" in c and not c.get("defargs"):
             # a named constant of aggregate type: evaluate its (straight-line) initialiser
             b = self.find_body(self.unit_qual(fr, strip_generics(c["def"]))) or self.find_body(strip_generics(c["def"]))
@@ -466,6 +475,29 @@ class Engine:
                 if v is not None:
                     return copy.deepcopy(v)
         return TOP
+
+    def eval_static(self, body):
+        """initialiser of a static / const item: straight-line code that may reference its own promoteds"""
+        st = State()
+        fr = Frame(body.mir, {}, None, None, body)
+        st.frames.append(fr)
+        try:
+            for _ in range(200):
+                b = body.mir.blocks[fr.bi]
+                for s_ in b["stmts"]:
+                    if s_["k"] == "assign":
+                        self.assign(st, fr, s_)
+                t = b["term"]
+                if t["k"] == "goto":
+                    fr.bi = t["target"]
+                elif t["k"] == "return":
+                    c = fr.env.get(0)
+                    return c.v if c else None
+                else:
+                    return None
+        except Exception:
+            return None
+        return None
 
     def eval_promoted(self, pm):
         """Promoted bodies are straight-line constant constructions returning `&value`."""
@@ -642,6 +674,8 @@ class Engine:
                 return AggV(adt, fs)
             if rv["agg"] == "closure":
                 return ClosureV(self.unit_qual(fr, rv["def"]), fs)
+            if rv["agg"] == "array" and rv.get("ty") == "u8" and fs and all(isinstance(self.resolve(st, v), K) and isinstance(self.resolve(st, v).v, int) for v in fs.values()):
+                return BytesV(bytes(self.resolve(st, fs[i]).v & 0xFF for i in sorted(fs)))
             return AggV(rv["agg"], fs)
         if k == "repeat":
             return AggV("array", {})
